@@ -55,6 +55,7 @@ TRUSTED = [
     "harness/py2lean.py: translates rot1/rot2/rot3, _precesion, _nutation arguments, _sideral (1980/2010), rate, _planets, X/Y/s polynomials, precesion_nutation, "
     "G50/GCRF constant matrices, TopocentricOrientation._m, _geodetic_to_cartesian into Generated/FrameFormulas{F,R}.lean on every run",
     "harness/props/C02.py extract: list of A_to_B methods of class Orientation (AST) -> Generated/OrientProviders.lean; orientHist from C20's extractor",
+    "harness/props/C02.py Scenario: the specification of the frame graph and the independent numpy formulas (QSW/TNW axes, station axes, geodetic coordinates) the model inputs are derived from",
     "lean/templates/Frames.tpl, Mat3.tpl, Model/Chain.lean (hand-written glue: provider products, EOP units, series folds, convert_to loop, centres, transform), tied by the correspondence run",
     "np.linalg.inv is modelled by the exact inverse (adjugate/determinant, block form); numpy / libm double arithmetic vs R: tolerance 1e-10 relative on matrices",
     "Node routing model of C20 (Model/Node.lean) for the paths; C20.path_valid_chain",
@@ -79,13 +80,19 @@ OPEN = [
     "EdgesOK for the model's concrete `edge` function is a hypothesis of orientConvert_compose/_inverse (see assumptions)",
     "velocity_is_derivative is proved for R(t) = rot3(-theta(t)) (the two Earth-rotation edges); the slow precession/nutation/polar-motion rates are omitted by the code by design (5e-5 m/s) and by the theorem",
 ]
-RULE = ("correspondence: nutation/CIO series folds on 25/8 dates (batched, tables parsed independently from beyond/frames/data), to_local / station matrix / geodetic closed forms, "
-        "Orientation.convert_to on random ordered pairs of {10 built-ins, station, QSW, TNW} and Frame.transform on random ordered pairs of {10 built-ins, station, "
-        "equatorial station, orbit-attached inertial/QSW/TNW, Moon-centred}, random dates 1973-2017 (10 % beyond the tables), real IERS files / zero EOP / missing EOP; "
+RULE = ("correspondence: nutation/CIO series folds on 25/8 dates (batched, tables parsed independently from beyond/frames/data), to_local / station matrix / geodetic closed forms; "
+        "Orientation.convert_to and Frame.transform on random ordered pairs of the frames of a SCENARIO: a specification (where each centre is, how each orientation is defined) "
+        "realised through the public API (create_station, solarsystem.get_frame, orbit2frame) while the model inputs (links, provider matrices, offsets) are derived from the "
+        "specification with independent numpy formulas, never from the objects the library built: 10 built-ins, station, equatorial station, Moon-centred, orbit-attached "
+        "inertial/QSW/TNW, chaser given relative to an orbit-attached frame (nested; inertial and TNW with that frame as parent), lunar orbiter given in the Moon frame (default "
+        "parent and QSW below the Moon frame), point given in a station frame, StateVector held in keplerian form; an exception of the implementation where the model converts is a "
+        "disagreement; random dates 1973-2017 (10 % beyond the tables), real IERS files / zero EOP / missing EOP; "
         "rtol 1e-10 on matrices, 1e-9 relative on states; non-trivial = source != target. "
         "oracle: A->B->C vs A->C and A->B->A (1e-6 m, 1e-9 m/s + double resolution at the largest distance), orthonormality/det/block form, |r| preserved, "
         "Richardson central difference (20/40 s) of the converted position vs converted velocity, GMST82/ERA/precession vs independent formulas, 1980 vs 2010 < 0.1 arcsec, "
-        "EOP reader vs independent parse, attached-frame independence of the StateVector form")
+        "EOP reader vs independent parse, attached-frame independence of the StateVector form, and the meaning of 'attached to X' with hand-written expected values "
+        "(X is the origin both ways, X + d is seen at d / R d) for references given in Earth-centred, nested orbit-attached, station and Moon-centred frames; "
+        "a conversion between connected frames that raises is a failing input")
 
 BUILTIN = ["EME2000", "MOD", "TOD", "TEME", "PEF", "ITRF", "TIRF", "CIRF", "GCRF", "G50"]
 ROTATING = {"PEF", "ITRF", "TIRF"}
@@ -258,6 +265,120 @@ def body_frames():
     return _bodies
 
 
+
+# ---------------------------------------------------------------- scenario: a SPEC of frames, realised through the public API
+
+def np_lof(tnw, sv):
+    """rows of the local orbital frame written from the definition (QSW: radial, in-plane, normal; TNW: velocity, in-plane, normal)"""
+    import numpy as np
+    r, v = np.asarray(sv[:3], float), np.asarray(sv[3:], float)
+    w = np.cross(r, v)
+    w = w / np.linalg.norm(w)
+    if tnw:
+        t = v / np.linalg.norm(v)
+        return np.array([t, np.cross(w, t), w])
+    q = r / np.linalg.norm(r)
+    return np.array([q, np.cross(w, q), w])
+
+
+def np_topo(lat, lon):
+    """station axes (X north... as documented: rot3(-lon) rot2(lat - pi/2) rot3(pi)), written entry by entry"""
+    import numpy as np
+    sl, cl, sp, cp = math.sin(lon), math.cos(lon), math.sin(lat), math.cos(lat)
+    # columns: South-ish/East/Zenith basis turned by pi about Z -> (north-ish, west, zenith) expressed in the parent
+    return np.array([[-sp * cl, sl, cp * cl], [-sp * sl, -cl, cp * sl], [cp, 0.0, sp]])
+
+
+def np_geodetic(lat, lon, alt):
+    import numpy as np
+    from beyond.constants import Earth
+    n = Earth.r / math.sqrt(1 - (Earth.e * math.sin(lat)) ** 2)
+    return np.array([(n + alt) * math.cos(lat) * math.cos(lon), (n + alt) * math.cos(lat) * math.sin(lon), (n * (1 - Earth.e ** 2) + alt) * math.sin(lat), 0, 0, 0])
+
+
+class Scenario:
+    """A specification of frames — where each centre IS and how each orientation is defined — from which
+    (a) the real frames are created through the public API (create_station, solarsystem.get_frame, orbit2frame) and
+    (b) the inputs of the Lean model (orientation links/providers, centre links/offsets) are derived *independently of the
+    objects the library builds*.  A library that hooks a centre or registers a provider at the wrong place disagrees with the model.
+
+    orientation nodes: 0..9 built-in, 10 station (topocentric), 11/12 QSW/TNW on orbit A (parent EME2000),
+                       13 QSW on the lunar orbiter L (parent = the Moon-centred frame), 14 TNW on the chaser C (parent = frame 'A inertial')
+    centre nodes:      0 Earth, 1 station, 2 orbit A, 3 Moon, 4 equatorial station, 5 chaser C (given relative to A),
+                       6 lunar orbiter L (given in the Moon frame), 7 point S given in the station frame, 8 point K (StateVector held in keplerian form)
+    """
+
+    def __init__(self, rng, idx, tag):
+        import numpy as np
+        from beyond.dates import Date
+        from beyond.orbits import StateVector
+        from beyond.frames.frames import orbit2frame, get_frame, EME2000
+        from beyond.frames.stations import create_station
+        self.idx = idx
+        ITRF, EME = idx["ITRF"], idx["EME2000"]
+        self.ITRF, self.EME = ITRF, EME
+        n = lambda x: f"C02s{tag}{x}"
+        d0 = Date(2005, 6, 7, 8, 9, 10)
+        self.latlonalt = (rng.uniform(-80, 80), rng.uniform(-179, 179), rng.uniform(0, 3000))
+        self.sta = create_station(n("Sta"), self.latlonalt)
+        self.equ = create_station(n("Equ"), (rng.uniform(-60, 60), rng.uniform(-179, 179), 10.0), equatorial=True)
+        self.equ_lla = self.equ_latlonalt = None
+        self.moon = body_frames()["Moon"]
+        self.A = make_orbit(rand_kepl(rng), d0)
+        self.relC = np.array([rng.uniform(-3e3, 3e3) for _ in range(3)] + [rng.uniform(-3, 3) for _ in range(3)])
+        self.pvL = np.array([1837.4e3 + rng.uniform(0, 2e5), rng.uniform(-2e4, 2e4), rng.uniform(-5e4, 5e4), rng.uniform(-20, 20), 1150.0 + rng.uniform(-50, 50), 1170.0 + rng.uniform(-50, 50)])
+        self.pvS = np.array([rng.uniform(-5e4, 5e4), rng.uniform(-5e4, 5e4), rng.uniform(1e3, 4e5), rng.uniform(-50, 50), rng.uniform(-50, 50), rng.uniform(-50, 50)])
+        self.keplK = [7.0e6 + rng.uniform(0, 3e6), rng.uniform(0.001, 0.2), rng.uniform(0.1, 2.9), rng.uniform(0, 6), rng.uniform(0, 6), rng.uniform(0, 6)]
+        fA = orbit2frame(n("Ai"), self.A, exists_warning=False)
+        orbit2frame(n("Aq"), self.A, orientation="QSW", exists_warning=False)
+        orbit2frame(n("At"), self.A, orientation="TNW", exists_warning=False)
+        self.C = StateVector(self.relC, d0, "cartesian", fA)                   # chaser known relative to A
+        orbit2frame(n("Ci"), self.C, exists_warning=False)
+        orbit2frame(n("Ct"), self.C, orientation="TNW", parent=fA, exists_warning=False)
+        self.L = StateVector(self.pvL, d0, "cartesian", self.moon)            # lunar orbiter, Moon-centred state
+        orbit2frame(n("Li"), self.L, exists_warning=False)                     # default parent
+        orbit2frame(n("Lq"), self.L, orientation="QSW", parent=self.moon, exists_warning=False)
+        self.S = StateVector(self.pvS, d0, "cartesian", self.sta)             # a point given in the station frame
+        orbit2frame(n("Si"), self.S, exists_warning=False)
+        self.K = StateVector(self.keplK, d0, "keplerian", "EME2000")
+        self.pvK = np.array(self.K.copy(form="cartesian"))
+        orbit2frame(n("Ki"), self.K, exists_warning=False)
+        equ_c = np.array(self.equ.center.offset, float)   # geodetic coordinates are checked separately (c02geod); here only the graph matters
+        # (frame name, orientation node, centre node, class for the oracle families)
+        self.frames = [(nm, i, 0, nm) for nm, i in idx.items()] + [
+            (n("Sta"), 10, 1, "station"), (n("Equ"), EME, 4, "station-equatorial"), ("Moon", EME, 3, "body-Moon"),
+            (n("Ai"), EME, 2, "orbit-inert"), (n("Aq"), 11, 2, "orbit-QSW"), (n("At"), 12, 2, "orbit-TNW"),
+            (n("Ci"), EME, 5, "nested-inert"), (n("Ct"), 14, 5, "nested-TNW"),
+            (n("Li"), EME, 6, "moon-orbiter-inert"), (n("Lq"), 13, 6, "moon-orbiter-QSW"),
+            (n("Si"), 10, 7, "station-point"), (n("Ki"), EME, 8, "kepl-point")]
+        self.equ_c = equ_c
+        # the `+` operations, as the documented construction implies them
+        self.ohist = [(ITRF, 10), (10, ITRF), (EME, 11), (EME, 12), (EME, 14), (EME, 13)]
+        self.chist = [(1, 0), (4, 0), (2, 0), (5, 2), (6, 3), (7, 1), (8, 0)]   # Moon (3,0) is inserted where the library created it: first
+        self.names = {k: n(k) for k in ("Sta", "Equ", "Ai", "Aq", "At", "Ci", "Ct", "Li", "Lq", "Si", "Ki")}
+
+    def model_inputs(self, date):
+        """orientation extras [(child, parent, 3x3)], centre links {child: (parent, orientation node, offset6)} at the date"""
+        import numpy as np
+        from beyond.env.solarsystem import MoonPropagator
+        lat, lon, alt = math.radians(self.latlonalt[0]), math.radians(self.latlonalt[1]), self.latlonalt[2]
+        pvA = np.array(self.A.propagate(date))
+        ex = [(10, self.ITRF, np_topo(lat, lon)), (11, self.EME, np_lof(False, pvA).T), (12, self.EME, np_lof(True, pvA).T),
+              (13, self.EME, np_lof(False, self.pvL).T), (14, self.EME, np_lof(True, self.relC).T)]
+        cl = {1: (0, self.ITRF, np_geodetic(lat, lon, alt)), 2: (0, self.EME, pvA), 3: (0, self.EME, np.array(MoonPropagator.propagate(date))),
+              4: (0, self.ITRF, self.equ_c), 5: (2, self.EME, self.relC), 6: (3, self.EME, self.pvL), 7: (1, 10, self.pvS), 8: (0, self.EME, self.pvK)}
+        return ex, cl
+
+
+_scenarios = []
+
+
+def scenarios(rng, idx, k=2):
+    while len(_scenarios) < k:
+        _scenarios.append(Scenario(rng, idx, len(_scenarios)))
+    return _scenarios
+
+
 # ---------------------------------------------------------------- independent formulas (oracle only)
 
 def indep_gmst82(jd_ut1_day, sec_ut1):
@@ -302,10 +423,15 @@ def rot_angle(m):
 
 # ---------------------------------------------------------------- oracle on the real API
 
+sc_class = {}
+
+
 def family_of(kind, *frames):
     def cls(f):
         if f in BUILTIN:
             return f
+        if f in sc_class:
+            return sc_class[f]
         if f.startswith("C02orb"):
             return "orbit-" + ("QSW" if f.endswith("QSW") else "TNW" if f.endswith("TNW") else "inert")
         if f.startswith("C02"):
@@ -325,6 +451,7 @@ def oracle(ctx, widened):
     big = widened or ctx.thorough
     sta = stations()
     bod = body_frames()
+    scs = scenarios(rng, {n: i for i, n in enumerate(orient_names())})
     for mode in ("real", "zero", "missing"):
         set_eop(mode)
         N = (400 if big else 40) if mode == "real" else (150 if big else 14)
@@ -333,6 +460,10 @@ def oracle(ctx, widened):
             att, ref = attached_frames(rng, date)
             names = BUILTIN + list(sta) + list(att) + list(bod)
             weights = [3] * len(BUILTIN) + [2] * len(sta) + [2] * len(att) + [1] * len(bod)
+            sc = rng.choice(scs)
+            cnames = names + [f[0] for f in sc.frames if f[0] not in names]       # compose / round trip also over nested, Moon-orbiter, station-point frames
+            cweights = weights + [2] * (len(cnames) - len(names))
+            sc_class.update({f[0]: f[3] for f in sc.frames})
             kepl = rand_kepl(rng)
             if rng.random() < 0.5:
                 # a chaser close to the reference orbit of the attached frames
@@ -342,13 +473,19 @@ def oracle(ctx, widened):
             orb = make_orbit(kepl, date)
             sv0 = orb.copy(form="cartesian")
             # ---- 1. path independence and round trip
-            for _ in range(5):
-                a, b, c = rng.choices(names, weights=weights, k=3)
-                svA = sv0.copy(frame=a)
-                svB = svA.copy(frame=b)
-                svAC = np.array(svA.copy(frame=c))
-                svABC = np.array(svB.copy(frame=c))
-                svABA = np.array(svB.copy(frame=a))
+            for _ in range(6):
+                a, b, c = rng.choices(cnames, weights=cweights, k=3)
+                try:
+                    svA = sv0.copy(frame=a)
+                    svB = svA.copy(frame=b)
+                    svAC = np.array(svA.copy(frame=c))
+                    svABC = np.array(svB.copy(frame=c))
+                    svABA = np.array(svB.copy(frame=a))
+                except Exception as e:
+                    out.count(key=("triple", mode, a, b, c, str(date)), kind="compose", eop=mode)
+                    out.fail(family_of("convert-raised", a, b, c), f"a conversion between connected frames raised {type(e).__name__}: {e}",
+                             {"eop": mode, "date": str(date), "frames": [a, b, c], "state": list(map(float, sv0))}, observed="exception", expected="a state")
+                    continue
                 out.count(key=("triple", mode, a, b, c, str(date)), kind="compose", eop=mode, nontrivial=len({a, b, c}) == 3)
                 # 1e-6 m / 1e-9 m/s, plus the resolution of a double at the largest distance involved (Sun-centred: 1.5e11 m -> 3e-5 m)
                 big_r = max(np.abs(np.array(x)[:3]).max() for x in (svA, svB, svAC))
@@ -452,9 +589,48 @@ def oracle(ctx, widened):
         if mode == "real":
             eop_reader_oracle(out, rng, 300 if big else 60)
             offset_form_oracle(out, rng, 40 if big else 6)
+        attached_oracle(out, rng, scs, mode, 60 if big else 8)
     set_eop("real")
     out.sample({"checks": "A->B->C vs A->C, A->B->A, orthonormality/det/block form, |r| preserved, Richardson finite-difference velocity, GMST82/ERA/IAU76 precession vs independent formulas, 1980 vs 2010 chain, EOP file reader vs independent column parse"})
     return out
+
+
+def attached_oracle(out, rng, scs, mode, n):
+    """What "a frame attached to X" means, on the real API, with expected values written by hand:
+    X itself is the origin of the frame (both ways), and a point X + d is seen at d (same axes) or at R d (QSW/TNW axes of X).
+    Covers references given in Earth-centred, orbit-attached (nested), station and Moon-centred frames, default and non-default parents."""
+    import numpy as np
+    from beyond.orbits import StateVector
+    for _ in range(n):
+        sc = rng.choice(scs)
+        date = rand_date(rng)
+        pvA = np.array(sc.A.propagate(date))
+        N = sc.names
+        # (attached frame, class, reference state, frame it is given in, axes of the attached frame relative to that frame)
+        cases = [(N["Ai"], "orbit-inert", pvA, "EME2000", np.eye(3)), (N["Aq"], "orbit-QSW", pvA, "EME2000", np_lof(False, pvA)), (N["At"], "orbit-TNW", pvA, "EME2000", np_lof(True, pvA)),
+                 (N["Ci"], "nested-inert", sc.relC, N["Ai"], np.eye(3)), (N["Ct"], "nested-TNW", sc.relC, N["Ai"], np_lof(True, sc.relC)),
+                 (N["Li"], "moon-orbiter-inert", sc.pvL, "Moon", np.eye(3)), (N["Lq"], "moon-orbiter-QSW", sc.pvL, "Moon", np_lof(False, sc.pvL)),
+                 (N["Si"], "station-point", sc.pvS, N["Sta"], np.eye(3)), (N["Ki"], "kepl-point", sc.pvK, "EME2000", np.eye(3))]
+        for F, cls, X, G, R in cases:
+            inert = cls.endswith("inert") or cls.endswith("point")
+            d = np.array([rng.uniform(-2e3, 2e3) for _ in range(3)] + [0.0, 0.0, 0.0])
+            inp = {"eop": mode, "date": str(date), "attached_frame": F, "reference_state": list(map(float, X)), "given_in": G}
+            scale = np.abs(X[:3]).max() + 4e8
+            tp, tv = 1e-5 + 1e-14 * scale, 1e-7
+            checks = [("origin", lambda: np.array(StateVector(X, date, "cartesian", G).copy(frame=F)), np.zeros(6), True),
+                      ("origin-back", lambda: np.array(StateVector(np.zeros(6), date, "cartesian", F).copy(frame=G)), X, True),
+                      ("offset", lambda: np.array(StateVector(X + d, date, "cartesian", G).copy(frame=F)), np.concatenate([R @ d[:3], np.zeros(3)]), inert)]
+            for name, fn, exp, with_vel in checks:
+                out.count(key=("attached", name, mode, F, str(date)), kind="attached-" + name, cls=cls, eop=mode)
+                try:
+                    got = fn()
+                except Exception as e:
+                    out.fail(f"attached-{name}:{cls}", f"conversion to/from a frame attached to a state given in {G} raised {type(e).__name__}: {e}", inp, observed="exception", expected=list(map(float, exp)))
+                    continue
+                ok = np.all(np.abs(got[:3] - exp[:3]) <= tp) and (not with_vel or np.all(np.abs(got[3:] - exp[3:]) <= tv))
+                if not ok:
+                    out.fail(f"attached-{name}:{cls}", f"frame attached to a state given in {G}: {name} check fails (the reference is the origin; X + d is seen at d / R d)",
+                             dict(inp, d=list(map(float, d))), observed=list(map(float, got)), expected=list(map(float, exp)))
 
 
 _form_frames = {}
@@ -631,59 +807,63 @@ def correspondence(ctx):
         reqs.append(" ".join(["c02geod"] + fl([lat, lon, alt])))
         post.append(("geodetic", {"lat": lat, "lon": lon, "alt": alt}, TopocentricFrame._geodetic_to_cartesian(lat, lon, alt), 1e-12, 1e-9))
         out.count(key=reqs[-1], kind="geodetic")
-    # ---- orientation and frame conversions under the three EOP configurations
-    ITRF, EME = idx["ITRF"], idx["EME2000"]
+    # ---- orientation and frame conversions under the three EOP configurations, on the scenarios (spec -> real frames / model inputs)
+    scs = scenarios(rng, idx)
     for mode in ("real", "zero", "missing"):
         set_eop(mode)
         for _ in range(ctx.n(30, 1200) if mode == "real" else ctx.n(10, 300)):
             date = rand_date(rng) if rng.random() < 0.9 else rand_date(rng, 57800, 58800)   # beyond the tables: zeros
-            att, ref = attached_frames(rng, date)
-            st_name = rng.choice([n for n in sta if n != "C02Equ"])
-            st = sta[st_name]
-            qsw = next(f for n, f in att.items() if n.endswith("QSW"))
-            tnw = next(f for n, f in att.items() if n.endswith("TNW"))
-            inert = next(f for n, f in att.items() if n.endswith("inert"))
+            sc = rng.choice(scs)
             D = fl(date_args(date))
-            # orientation universe: 0..9 built-in, 10 station, 11 QSW, 12 TNW; history of `+` as executed by the library
-            hist = [(ITRF, 10), (10, ITRF), (EME, 11), (EME, 12)]
-            ex = [(10, ITRF, st.orientation._to_parent(date)[0]), (11, EME, qsw.orientation._to_parent(date)[0]), (12, EME, tnw.orientation._to_parent(date)[0])]
-            onodes = {n: i for n, i in idx.items()}
-            oobj = {i: get_frame(n).orientation for n, i in idx.items()}
-            oobj.update({10: st.orientation, 11: qsw.orientation, 12: tnw.orientation})
-            htoks = [str(len(hist))] + [str(v) for h in hist for v in h]
+            ex, cl = sc.model_inputs(date)
+            htoks = [str(len(sc.ohist))] + [str(v) for h in sc.ohist for v in h]
             etoks = [str(len(ex))] + [t for c, p, m in ex for t in [str(c), str(p)] + fl(np.asarray(m).flatten())]
+            chist = [(3, 0)] + sc.chist
+            ctoks = [str(len(chist))] + [str(v) for h in chist for v in h] + [str(len(cl))] + [t for c, (par, o, off) in cl.items() for t in [str(c), str(par), str(o)] + fl(off)]
+            byori = {}
+            for fr in sc.frames:
+                byori.setdefault(fr[1], fr)
             for _ in range(4):
-                a, b = rng.choice(list(oobj)), rng.choice(list(oobj))
-                m = oobj[a].convert_to(date, oobj[b])
-                shape_err = max(np.abs(m[:3, 3:]).max(), np.abs(m[3:, 3:] - m[:3, :3]).max())
+                fa, fb = byori[rng.choice(list(byori))], byori[rng.choice(list(byori))]
+                a, b = fa[1], fb[1]
+                inp = {"eop": mode, "date": str(date), "a": fa[0], "b": fb[0]}
                 reqs.append(" ".join(["c02conv"] + D + htoks + etoks + [str(a), str(b)]))
-                post.append(("convert", {"eop": mode, "date": str(date), "a": a, "b": b, "shape_err": float(shape_err)},
-                             list(m[:3, :3].flatten()) + list(m[3:, :3].flatten()), 1e-10, 1e-13))
-                if shape_err > 1e-13:
-                    out.fail("convert-shape", "6x6 matrix is not of the form [[R,0],[B,R]]", {"eop": mode, "date": str(date), "a": a, "b": b}, observed=float(shape_err), expected=0.0)
-                out.count(key=("conv", mode, str(date), a, b), nontrivial=a != b, kind="orient-convert", eop=mode, pair=f"{min(a, 10)}-{min(b, 10)}" if max(a, b) >= 10 else "builtin")
-            # centres: 0 Earth, 1 station, 2 reference orbit, 3 Moon, 4 equatorial station
-            moon = bod["Moon"]
-            equ = sta["C02Equ"]
-            offs = {1: (ITRF, st.center.offset), 2: (EME, np.array(inert.center.offset.propagate(date))), 3: (EME, np.array(moon.center.offset.propagate(date))),
-                    4: (ITRF, equ.center.offset)}
-            chist = [(c, 0) for c in offs]
-            ctoks = [str(len(chist))] + [str(v) for h in chist for v in h] + [str(len(offs))] + [t for c, (o, off) in offs.items() for t in [str(c), "0", str(o)] + fl(off)]
-            frames = [(n, i, 0) for n, i in idx.items()] + [(st_name, 10, 1), (qsw.name, 11, 2), (tnw.name, 12, 2), (inert.name, EME, 2), ("Moon", EME, 3), ("C02Equ", EME, 4)]
+                try:
+                    m = get_frame(fa[0]).orientation.convert_to(date, get_frame(fb[0]).orientation)
+                    shape_err = max(np.abs(m[:3, 3:]).max(), np.abs(m[3:, 3:] - m[:3, :3]).max())
+                    post.append(("convert", inp, list(m[:3, :3].flatten()) + list(m[3:, :3].flatten()), 1e-10, 1e-13))
+                    if shape_err > 1e-13:
+                        out.fail("convert-shape", "6x6 matrix is not of the form [[R,0],[B,R]]", inp, observed=float(shape_err), expected=0.0)
+                except Exception as e:   # connected orientations must be convertible
+                    post.append(("convert", inp, f"raised {type(e).__name__}: {e}", 0, 0))
+                out.count(key=("conv", mode, str(date), fa[0], fb[0]), nontrivial=a != b, kind="orient-convert", eop=mode, pair=f"{min(a, 10)}-{min(b, 10)}" if max(a, b) >= 10 else "builtin")
             kep = rand_kepl(rng)
             sv0 = make_orbit(kep, date).copy(form="cartesian")
-            for _ in range(5):
-                fa, fb = rng.choice(frames), rng.choice(frames)
-                sa = sv0.copy(frame=fa[0])
-                sb = np.array(sa.copy(frame=fb[0]))
+            for _ in range(6):
+                fa, fb = rng.choice(sc.frames), rng.choice(sc.frames)
+                inp = {"eop": mode, "date": str(date), "from": fa[0], "to": fb[0]}
+                try:
+                    sa = sv0.copy(frame=fa[0])
+                except Exception as e:
+                    out.fail("model-transform", f"conversion EME2000 -> {fa[3]} raised {type(e).__name__}: {e}", inp, observed="exception", expected="a state")
+                    continue
+                inp["state"] = list(map(float, sa))
                 reqs.append(" ".join(["c02xf"] + D + htoks + etoks + ctoks + [str(fa[1]), str(fa[2]), str(fb[1]), str(fb[2])] + fl(np.array(sa))))
-                scale_p = max(np.abs(np.array(sa)[:3]).max(), np.abs(sb[:3]).max(), 7e6)
-                post.append(("transform", {"eop": mode, "date": str(date), "from": fa[0], "to": fb[0], "state": list(map(float, sa))}, sb, 1e-10, ("pv", 1e-9 * scale_p, 1e-9 * scale_p * 1e-3)))
-                out.count(key=("xf", mode, str(date), fa[0], fb[0]), nontrivial=fa[0] != fb[0], kind="frame-transform", eop=mode,
-                          centres=f"{min(fa[2], 1)}{min(fb[2], 1)}")
+                try:
+                    sb = np.array(sa.copy(frame=fb[0]))
+                    scale_p = max(np.abs(np.array(sa)[:3]).max(), np.abs(sb[:3]).max(), 7e6)
+                    post.append(("transform", inp, sb, 1e-10, ("pv", 1e-9 * scale_p, 1e-9 * scale_p * 1e-3)))
+                except Exception as e:
+                    post.append(("transform", inp, f"raised {type(e).__name__}: {e}", 0, 0))
+                out.count(key=("xf", mode, str(date), fa[0], fb[0]), nontrivial=fa[0] != fb[0], kind="frame-transform", eop=mode, pair=f"{fa[3] if fa[2] or fa[1] >= 10 else 'builtin'}>{fb[3] if fb[2] or fb[1] >= 10 else 'builtin'}")
     set_eop("real")
-    replies = core.Driver().run(reqs)
+    replies = core.Driver(ID).run(reqs)
     for req, (kind, inp, real, rtol, atol), rep in zip(reqs, post, replies):
+        if isinstance(real, str):
+            # the implementation raised where the model (the specification of the frame graph) yields a value
+            if rep and rep[0].isdigit():
+                out.fail("model-" + kind, "the implementation " + real + " where the frames are connected and the model converts", inp, observed=real, expected=[b2f(t) for t in rep.split()][:6])
+            continue
         if isinstance(atol, tuple):
             # position / velocity tolerances of a converted state
             if not rep or not rep[0].isdigit():
